@@ -21,7 +21,10 @@ set_rcode(FORMERR) call;
 and the loop bounds derive from ANCOUNT+NSCOUNT and ARCOUNT;
 (d) FORMERR is not pre-empted: in the OPT arm the duplicate-OPT test is decided before set_edns is called (set_edns fails
 with AlreadyEdns on a second OPT and that failure is answered SERVFAIL), and no non-FORMERR RCODE is set in the scan before
-the record's own FORMERR tests.
+the record's own FORMERR tests;
+(e) a counted record is 'delimited' only if it lies inside the message: peek_rr / skip_rr succeed only with
+owner_end + 10 <= rr_end <= len(octets) (the PeekRr / Reader invariants of C15, re-proved here), so a record cut short by
+even one octet takes the Err arm that is answered FORMERR.
 Not decided: which of two simultaneous errors wins for arbitrary octets (value-level).
 """
 ASSUMPTIONS = [
@@ -215,3 +218,7 @@ def check(R, F):
     R.floor('formerr-arm', 11)
     R.floor('scan-order', 6)
     R.floor('scan-advance', 2)
+
+    # ---- (e) delimitation: the reader's invariants (shared with C15)
+    from rules import c15, e5
+    c15.check_invariants(R, F, e5.make_summary(F))
